@@ -6,7 +6,15 @@
 (* for annotation evaluation included; depth is informative, the sub-machine of Outcome decides    *)
 (* what is a sub-run), whether an exception escaped, and the reported errors (name, line).         *)
 (* The run is accepted iff it is a behaviour of the Outcome machine whose report satisfies C15     *)
-(* (Outcome!Verdict).  Verdicts are total: failing clauses are printed as BAD lines.               *)
+(* (Outcome!Verdict).  Verdicts are total: failing clauses are printed as BAD lines, with the      *)
+(* spec-computed attribution of a known defect (Outcome!Attribution).                              *)
+(*                                                                                                 *)
+(* Planned families.  A case of the family "call" carries the callable and its calls (shape and     *)
+(* line); of the family "provoke" the class its text is to provoke.  The faults of every call are   *)
+(* RE-COMPUTED here from the shapes (Outcome!ExpectClasses); COVER lines name the error classes     *)
+(* that were reported where the spec expects them (the driver's vacuity guard: every class of the   *)
+(* pinned catalogue, and every failed-call class by the call family alone), the reported names      *)
+(* that are not in the pinned catalogue, and the calls with no fault that got a binding error.      *)
 EXTENDS Outcome, IOUtils, TLCExt
 
 Cases == JsonDeserialize(IOEnv.TRACE_FILE)
@@ -14,20 +22,47 @@ Cases == JsonDeserialize(IOEnv.TRACE_FILE)
 VARIABLE i
 
 Pairs(s) == [x \in DOMAIN s |-> <<s[x][1], s[x][2]>>]
+ToSet(s) == {s[x] : x \in DOMAIN s}
 
 Fails(c) ==
   Verdict([compiles |-> c.compiles, cline |-> c.cline, nlines |-> c.nlines, skip |-> c.skip, mode |-> c.mode],
           Pairs(c.events), c.crashed, Pairs(c.errs))
 
-TInit == i = 1 /\ TLCSet(1, FALSE) /\ inp = 0 /\ st = 0 /\ errs = 0 /\ muts = 0 /\ hist = 0
+CallOf(x) == [npos |-> x.npos, kws |-> ToSet(x.kws)]
+Reported(c, cl, line) == \E e \in DOMAIN c.errs : c.errs[e][1] = cl /\ c.errs[e][2] = line
+Hit(c) ==
+  CASE c.plan.fam = "call" ->
+         {cl \in CallClasses : \E j \in DOMAIN c.plan.calls :
+            /\ cl \in ExpectClasses(c.plan.c, CallOf(c.plan.calls[j]))
+            /\ Reported(c, cl, c.plan.calls[j].line)}
+    [] c.plan.fam = "provoke" ->
+         {cl \in {c.plan.want} : \E e \in DOMAIN c.errs : c.errs[e][1] = cl}
+    [] OTHER -> {}
+(* calls the binding rules accept for which a binding error was reported (C13's subject; logged) *)
+Spurious(c) ==
+  IF c.plan.fam # "call" THEN {}
+  ELSE {j \in DOMAIN c.plan.calls :
+          /\ BindingFaults(c.plan.c, CallOf(c.plan.calls[j])) = {}
+          /\ \E cl \in CallClasses \ {"wrong-arg-types"} : Reported(c, cl, c.plan.calls[j].line)}
+Unknown(c) == {c.errs[e][1] : e \in DOMAIN c.errs} \ ErrorClasses
+
+TInit == i = 1 /\ TLCSet(1, FALSE) /\ inp = 0 /\ st = 0 /\ errs = 0 /\ muts = 0 /\ hist = 0 /\ plan = 0
 TNext == /\ i <= Len(Cases)
          /\ i' = i + 1
          /\ (i' > Len(Cases) => TLCSet(1, TRUE))
          /\ UNCHANGED vars
 
 Ok == i <= Len(Cases) =>
-        LET f == Fails(Cases[i]) IN
-          f = {} \/ PrintT(<<"BAD", ToJson([i |-> i, fails |-> f])>>)
+        LET c == Cases[i]
+            f == Fails(c)
+            h == Hit(c)
+            u == Unknown(c)
+            s == Spurious(c) IN
+          /\ f = {} \/ PrintT(<<"BAD", ToJson([i |-> i, fails |-> f,
+                                               attr |-> Attribution(f, c.anntrail, Pairs(c.errs))])>>)
+          /\ (h = {} /\ u = {} /\ s = {})
+             \/ PrintT(<<"COVER", ToJson([i |-> i, fam |-> c.plan.fam, hit |-> h, unknown |-> u,
+                                         spurious |-> Cardinality(s)])>>)
 
 Done == TLCGet(1)
 =============================================================================
